@@ -97,7 +97,7 @@ fn fresh_tcp(router: &v::VRouter, c: &Conc) -> Vec<u8> {
     util::block_on(async move {
         let l = tokio::net::TcpListener::bind("127.0.0.1:0").await.expect("harness: bind");
         let addr = l.local_addr().unwrap();
-        let (c, sv) = tokio::join!(tokio::net::TcpStream::connect(addr), l.accept());
+        let (c, sv) = tokio::join!(crate::util::connect_loopback(addr), l.accept());
         let (mut c, (sv, peer)) = (c.expect("harness: connect (ephemeral ports exhausted?)"), sv.expect("harness: accept"));
         c.set_nodelay(true).ok();
         let server = tokio::spawn(async move { v::session(&r2, sv, peer.ip()).await });
@@ -194,7 +194,7 @@ fn run_tcp(router: &v::VRouter, segs: Vec<Vec<u8>>, wait_after: Vec<usize>) -> (
     let (out, end) = util::block_on(async move {
         let l = tokio::net::TcpListener::bind("127.0.0.1:0").await.unwrap();
         let addr = l.local_addr().unwrap();
-        let (c, sv) = tokio::join!(tokio::net::TcpStream::connect(addr), l.accept());
+        let (c, sv) = tokio::join!(crate::util::connect_loopback(addr), l.accept());
         let (mut c, (sv, peer)) = (c.unwrap(), sv.unwrap());
         c.set_nodelay(true).ok();
         let server = tokio::spawn(async move { v::session(&r2, sv, peer.ip()).await });
